@@ -40,15 +40,23 @@ def enumerated(tier, seed):
         for switch in SWITCHES:
             for append in (False, True):
                 for pre in PRES:
-                    for variant in (range(N_ARBITRARY) if pre == "arbitrary" else (0, 1)):
+                    for variant in (range(N_ARBITRARY) if pre == "arbitrary" else (0, 1, 2) if pre == "dsk" else (0, 1)):
                         if pre in ("absent", "empty") and variant:
                             continue
                         if pre == "bigcas" and variant:
                             continue
                         k = 63 + variant if pre == "arbitrary" else variant * 977 + 5      # every arbitrary-content shape
                         if pre == "dsk" and variant:
-                            k = 981      # k % 4 == 1: a disk holding a tape image as a file
+                            k = 981 if variant == 1 else 982     # a disk holding a tape image as a file / a scattered 3-granule file
                         yield dict(steps=[dict(tool=tool, switch=switch, append=append)], pre=pre, k=k)
+    # the same target spelled differently on the command line (./x, sub/../x, absolute, ~/x with HOME set): whatever the
+    # spelling resolves to, an existing file may only change when append applies to it
+    for tool in ("asm", "fu_cas"):
+        for switch in SWITCHES:
+            for append in (False, True):
+                for pre in ("cas", "dsk", "rawbin"):
+                    for spell in ("dot", "sub", "abs", "tilde"):
+                        yield dict(steps=[dict(tool=tool, switch=switch, append=append)], pre=pre, k=5, spell=spell)
     # program names that cannot be stored as bytes: the save fails, the existing image must survive
     for name in ("N\u20ac", "\u00c01", "\u540d\u524d"):
         for switch in ("--to_cas", "--to_dsk"):
@@ -120,6 +128,10 @@ def make_pre(pre, k):
         return make_cas(files, lead=rnd.choice([128, 128, 16])), "cas", files
     if pre == "dsk":
         files = _small_files(rnd, 1 + k % 2, "dsk")
+        if k % 4 == 2:
+            # a machine-language file of three granules on a scattered chain (the chain is shuffled by make_dsk)
+            files[0] = dict(files[0], name="SCATTER", ftype=2, dtype=0, load=0x3000, exec=0x3003,
+                            data=bytes(rnd.randrange(256) for _ in range(5000)))
         if k % 4 == 1:
             # a disk that holds a cassette image as one of its files - never in granule 0: an image that *begins* with a
             # tape stream and is also a valid disk has two honest readings and is not generated (DESIGN 9.5)
@@ -198,6 +210,11 @@ def execute(case):
             fh.write(make_cas([src_file]))
         with open(os.path.join(tmp, "source.dsk"), "wb") as fh:
             fh.write(make_dsk([src_file], rnd))
+        spell = case.get("spell")
+        os.makedirs(os.path.join(tmp, "sub"), exist_ok=True)
+        spelled = {None: "target.out", "dot": "./target.out", "sub": "sub/../target.out", "abs": target, "tilde": "~/target.out"}[spell]
+        if spell:
+            labels.append("spelled:" + spell)
         for sidx, step in enumerate(case["steps"]):
             before = open(target, "rb").read() if os.path.exists(target) else None
             kind, held = classify(before)
@@ -206,16 +223,16 @@ def execute(case):
             want_kind = {"--to_bin": "bin", "--to_cas": "cas", "--to_dsk": "dsk"}[step["switch"]]
             odd_name = step.get("name")
             if step["tool"] == "asm":
-                argv = ["noname.asm" if odd_name else "prog.asm", "--name", odd_name or "PROG", step["switch"], "target.out"]
+                argv = ["noname.asm" if odd_name else "prog.asm", "--name", odd_name or "PROG", step["switch"], spelled]
                 script = "assembler.py"
                 new_data, new_name = prog.image, odd_name or "PROG"
             else:
-                argv = ["source.cas" if step["tool"] == "fu_cas" else "source.dsk", step["switch"], "target.out"]
+                argv = ["source.cas" if step["tool"] == "fu_cas" else "source.dsk", step["switch"], spelled]
                 script = "file_util.py"
                 new_data, new_name = src_file["data"], "SRCFILE"
             if step["append"]:
                 argv.append("--append")
-            res = driver.run_cli(script, argv, cwd=tmp)
+            res = driver.run_cli(script, argv, cwd=tmp, env_extra={"HOME": tmp})
             if res.status == "timeout" or ("Traceback" in res.stderr and not odd_name):
                 return viol("step {} {}: {} {}".format(sidx, argv, res.status, res.stderr.strip().splitlines()[-1:] ),
                             fid="C10:crash", labels=labels)
@@ -250,6 +267,8 @@ def execute(case):
             if verdict == "permitted":
                 labels.append("permitted")
             if not changed:
+                if spell == "tilde":
+                    continue        # whether ~ is expanded is the tool's choice; if not, the path names nothing
                 if verdict == "new" and not odd_name:
                     return viol("{}: no file was written; stdout={!r}".format(where, res.stdout[-200:]), fid="C10:not-created",
                                 labels=sorted(set(labels)))
